@@ -50,7 +50,7 @@ WS = M + ':WebSocket'
 AM = 'falcon.asgi.app'
 APP = AM + ':App'
 
-CONNECTING, OPEN, CLOSED, LOST = 'CONNECTING', 'OPEN', 'CLOSED', 'LOST'
+CONNECTING, OPEN, CLOSED, LOST = 0, 1, 2, 3  # monitor states (ints so that an arbitrary one can be a symbolic value)
 
 INLINE = [WS + '.*', 'falcon.errors:WebSocketDisconnected.__init__']
 
@@ -145,32 +145,33 @@ FATE_CODE = {1: 1000, 2: 1001, 3: 1000}
 class Send:
     """The ASGI server's `send` callable with the session monitor inside."""
 
-    def __init__(self, v, sess, rx=None, fates=6):
+    def __init__(self, v, sess, rx=None, fates=(0, 1, 2, 3, 4, 5)):
         self.v = v
         self.sess = sess
         self.rx = rx
         self.fates = fates
-        self.fate = None
+        self.fate = None  # what the server did with the last event
+        self.seen = []  # ... with every event, in order
 
     def __call__(self, event):
         v, s = self.v, self.sess
         s.attempts += 1
         t = event.get('type') if isinstance(event, dict) else None
-        if s.mon == LOST:
-            v.check('session-legal:no-send-attempt-after-the-server-reported-the-connection-lost', False)
-        elif s.mon == CLOSED:
-            v.check('session-legal:nothing-after-close', False)
-        elif t == 'websocket.accept':
-            v.check('session-legal:accept-only-once-while-connecting', s.mon == CONNECTING)
+        m = s.mon
+        v.check('session-legal:no-send-attempt-after-the-server-reported-the-connection-lost', m != LOST)
+        v.check('session-legal:nothing-after-close', m != CLOSED)
+        if t == 'websocket.accept':
+            v.check('session-legal:accept-only-once-while-connecting', m == CONNECTING)
         elif t == 'websocket.send':
-            v.check('session-legal:data-only-between-accept-and-close', s.mon == OPEN)
+            v.check('session-legal:data-only-between-accept-and-close', m == OPEN)
         elif t == 'websocket.close':
-            v.check('session-legal:close-while-connecting-or-open', s.mon in (CONNECTING, OPEN))
+            v.check('session-legal:close-while-connecting-or-open', Or(m == CONNECTING, m == OPEN))
         else:
             v.check('session-legal:known-event-type', False)
         v.check('session-legal:nothing-after-client-disconnect-was-delivered', Not(s.gone))
-        fate = v.choose(self.fates, 'send-fate')
+        fate = self.fates[v.choose(len(self.fates), 'send-fate')]
         self.fate = fate
+        self.seen.append(fate)
         if self.rx is not None:
             self.rx.tick()
         if fate == 0:
@@ -339,10 +340,9 @@ def mk(v):
     elif si == 1:
         mon, gone = OPEN, disc
     else:
-        mon = (CLOSED, LOST, OPEN, CONNECTING)[v.choose(4, 'monitor')]
+        mon = v.int('monitor', CONNECTING, LOST)
         gone = True if disc else v.bool('client_gone')
-        if mon in (OPEN, CONNECTING):
-            v.assume(gone)
+        v.assume(Or(mon == CLOSED, mon == LOST, gone))
         if v.choose(2, 'close_code?'):
             close_code = v.int('close_code0')
     e = Env()
@@ -386,7 +386,7 @@ def inv(e):
     elif st is St.ACCEPTED:
         link = s.mon == OPEN
     else:
-        link = Or(s.mon in (CLOSED, LOST), s.gone)
+        link = Or(s.mon == CLOSED, s.mon == LOST, s.gone)
     gone_ok = Implies(s.gone, Or(st is St.CLOSED, e.rx.client_disconnected))
     code_ok = True if st is St.CLOSED else v.get(e.ws, '_close_code') is None
     return And(link, gone_ok, code_ok)
@@ -792,6 +792,573 @@ def ws_receive_media(v):
     else:
         v.check('message-without-payload-raises-PayloadTypeError', raised(v, out, PTE))
         v.cover('media-without-payload')
+
+
+
+# ---------------------------------------------------------------------------
+# the three state properties
+
+
+def _prop_harness(name, clause, expect):
+    @harness(PROP, WS + '.' + name, name='ws_' + name, inline=INLINE, setup=_setup)
+    def h(v):
+        e = mk(v)
+        out = v.call(e.ws)
+        closed = e.state0 is e.St.CLOSED
+        v.check(clause, out.exc is None and out.value == expect(e, closed))
+        v.check('pure', And(nothing_sent(e), e.sess.receives == 0, unchanged(e)))
+
+    return h
+
+
+_prop_harness('closed', 'closed-iff-closed-by-the-server-or-client-disconnected', lambda e, closed: closed or e.disc0)
+_prop_harness('ready', 'ready-iff-accepted-and-client-still-connected', lambda e, closed: e.state0 is e.St.ACCEPTED and not e.disc0)
+_prop_harness('unaccepted', 'unaccepted-iff-handshake-pending', lambda e, closed: e.state0 is e.St.HANDSHAKE)
+
+
+# ---------------------------------------------------------------------------
+# construction, spec-version predicates, status mapping
+
+VERSIONS = ('2.0', '2.1', '2.2', '2.3', '2.4', '2.10', '3.0')
+
+
+def _ver_tuple(ver):
+    return tuple(int(x) for x in ver.split('.'))
+
+
+@stubclass
+class MediaHandler:
+    def __init__(self, v, kind):
+        self.serialize = Codec(v, kind + '_serialized', 'str' if kind == 'text' else 'bytes')
+        self.deserialize = Codec(v, kind + '_deserialized', 'obj')
+
+
+def _setup_init(reg, ex):
+    import asyncio
+
+    _setup(reg, ex)
+    # _BufferedReceiver.__init__ only remembers the loop (C18 uses it)
+    reg.add_model(asyncio.get_running_loop, lambda I: _Opaque('event-loop'))
+
+
+def _in_loop(v, thunk):
+    """Concrete replay of code that needs a running event loop (asyncio.get_running_loop())."""
+    if not v.concrete:
+        return thunk()
+    import asyncio
+
+    async def go():
+        return thunk()
+
+    loop = asyncio.new_event_loop()
+    try:
+        return loop.run_until_complete(go())
+    finally:
+        loop.close()
+
+
+@harness(PROP, WS + '.__init__', inline=INLINE + [M + ':_BufferedReceiver.__init__'], setup=_setup_init)
+def ws_init(v):
+    PT = v.real('falcon.constants:WebSocketPayloadType')
+    St = states(v)
+    ver = v.one_of('ver', *VERSIONS)
+    subs = v.one_of('subprotocols', None, [], ['chat', 'superchat'])
+    scope = {'type': 'websocket'}
+    if subs is not None:
+        scope['subprotocols'] = subs
+    sess = Session(CONNECTING, False)
+    recv, send = Receive(v, sess), Send(v, sess)
+    text_h, bin_h = MediaHandler(v, 'text'), MediaHandler(v, 'bin')
+    maxq = v.one_of('max_receive_queue', 0, 1, 4)
+    reasons = Reasons(v)
+    ws = v.obj(WS)
+    out = _in_loop(v, lambda: v.call(ws, ver, scope, recv, send, {PT.TEXT: text_h, PT.BINARY: bin_h}, maxq, reasons))
+    v.check('no-exception', out.exc is None)
+    if out.exc is not None:
+        return
+    g = lambda n: v.get(ws, n)
+    v.check('starts-in-handshake-without-close-code', g('_state') is St.HANDSHAKE and g('_close_code') is None)
+    v.check('nothing-sent-or-received-by-construction', sess.attempts == 0 and sess.receives == 0)
+    v.check('bound-to-the-server-send', g('_asgi_send') is send)
+    rx = g('_buffered_receiver')
+    if maxq == 0:
+        v.check('unbuffered-mode-receives-directly-from-the-server', g('_asgi_receive') is recv)
+        v.cover('unbuffered')
+    else:
+        ar = g('_asgi_receive')
+        owner = getattr(ar, 'self_obj', None) if not v.concrete else getattr(ar, '__self__', None)
+        fname = ar.func.qualname if not v.concrete else ar.__func__.__qualname__
+        v.check('buffered-mode-receives-through-the-buffered-receiver', owner is rx and fname == '_BufferedReceiver.receive')
+        v.cover('buffered')
+    v.check('buffered-receiver-wraps-the-server-receive', v.get(rx, '_asgi_receive') is recv and v.get(rx, '_max_queue') == maxq
+            and v.get(rx, 'client_disconnected') is False and v.get(rx, 'client_disconnected_code') is None)
+    v.check('accept-headers-supported-from-spec-2.1', g('_supports_accept_headers') == (ver != '2.0'))
+    v.check('close-reason-supported-from-spec-2.3', g('_supports_reason') == (_ver_tuple(ver) >= (2, 3)))
+    v.check('media-handlers-by-payload-type', g('_mh_text_serialize') is text_h.serialize and g('_mh_text_deserialize') is text_h.deserialize
+            and g('_mh_bin_serialize') is bin_h.serialize and g('_mh_bin_deserialize') is bin_h.deserialize)
+    v.check('default-close-reasons-kept', g('_close_reasons') is reasons)
+    v.check('subprotocols-as-offered-by-the-client', g('subprotocols') == tuple(subs or ()))
+
+
+@harness(PROP, M + ':_supports_reason')
+def supports_reason(v):
+    ver = v.one_of('ver', *VERSIONS)
+    out = v.call(ver)
+    v.check('reason-supported-iff-spec-version-at-least-2.3', out.exc is None and out.value == (_ver_tuple(ver) >= (2, 3)))
+
+
+@harness(PROP, M + ':http_status_to_ws_code')
+def status_to_ws_code(v):
+    s = v.int('http_status')
+    out = v.call(s)
+    v.check('close-code-is-3000-plus-status', out.exc is None and out.value == 3000 + s)
+
+
+# ---------------------------------------------------------------------------
+# app level: _handle_websocket, _handle_exception(ws=...), the four error handlers, _ws_cleanup_on_error
+
+
+class Boom(Exception):
+    """An application exception with a custom error handler registered (custom-handler variants)."""
+
+
+@stubclass
+class AppReceive:
+    """The server's receive callable as _handle_websocket sees it: the handshake event first."""
+
+    def __init__(self, v, sess, first):
+        self.v = v
+        self.sess = sess
+        self.first = first
+        self.calls = 0
+
+    def __call__(self):
+        self.calls += 1
+        if self.calls == 1:
+            return Ready(self.first)
+        self.v.check('framework-itself-receives-only-the-handshake-event', False)
+        return Ready({'type': 'websocket.disconnect'})
+
+
+@stubclass
+class Req:
+    def __init__(self, v):
+        self.path = v.str('path')
+        self.method = 'GET'
+        self.is_websocket = True
+        self.uri_template = None
+
+
+@stubclass
+class ReqFactory:
+    """app._request_type"""
+
+    def __init__(self, world):
+        self.world = world
+        self.calls = []
+
+    def __call__(self, scope, receive, options=None):
+        self.calls.append((scope, receive, options))
+        self.world.req = Req(self.world.v)
+        return self.world.req
+
+
+@stubclass
+class Router:
+    """app._router_search: opaque; the outcome kind is fixed by the harness."""
+
+    def __init__(self, world, route):
+        self.world = world
+        self.route = route
+        self.calls = []
+
+    def __call__(self, path, req=None):
+        self.calls.append((path, req))
+        return self.route
+
+
+class World:
+    """Everything around one _handle_websocket run."""
+
+    __pyvc_symbolic__ = True
+
+    def __init__(self, v, maxq):
+        self.v = v
+        self.maxq = maxq
+        self.sess = Session(CONNECTING, False)
+        self.send = Send(v, self.sess, fates=(0, 1, 5))  # returns / lost (OSError) / other server error
+        self.ws = None
+        self.req = None
+        self.final = None
+        self.order = []
+        self.St = states(v)
+
+    def see(self, args, kwargs):
+        WebSocket = self.v.real(WS)
+        for a in list(args) + list(kwargs.values()):
+            if getattr(a, '_cls', None) is WebSocket or isinstance(a, WebSocket):
+                v = self.v
+                if self.ws is None:
+                    v.check('participants-get-a-socket-bound-to-the-server-send', v.get(a, '_asgi_send') is self.send)
+                else:
+                    v.check('one-socket-per-connection', a is self.ws)
+                self.ws = a
+        return self.ws
+
+    def havoc(self):
+        """The participant used the public API: the socket is in an arbitrary state satisfying I."""
+        v, St, s, ws = self.v, self.St, self.sess, self.ws
+        si = v.choose(3, 'state-left')
+        state = (St.HANDSHAKE, St.ACCEPTED, St.CLOSED)[si]
+        disc = bool(v.choose(2, 'pump-saw-disconnect')) if self.maxq > 0 else False
+        dcode = v.int('client_disconnected_code') if disc else None
+        code = None
+        if si == 0:
+            mon, gone = CONNECTING, disc
+        elif si == 1:
+            mon, gone = OPEN, disc
+        else:
+            mon = v.int('monitor_left', CONNECTING, LOST)
+            gone = True if disc else v.bool('client_gone')
+            v.assume(Or(mon == CLOSED, mon == LOST, gone))
+            code = v.int('close_code_left')  # nothing at app level reads it
+        v.set(ws, '_state', state)
+        v.set(ws, '_close_code', code)
+        rx = v.get(ws, '_buffered_receiver')
+        v.set(rx, 'client_disconnected', disc)
+        v.set(rx, 'client_disconnected_code', dcode)
+        s.mon, s.gone = mon, gone
+        self.final = (state, mon, gone, disc, code)
+
+
+P_RETURNS, P_HTTP_ERROR, P_HTTP_STATUS, P_DISCONNECTED, P_EXCEPTION, P_BOOM = range(6)
+
+
+@stubclass
+class Participant:
+    """A responder / middleware method / custom error handler: opaque code using the socket's public API."""
+
+    def __init__(self, world, name, last, fates):
+        self.world = world
+        self.name = name
+        self.last = last  # no other participant runs after a normal return of this one
+        self.fates = fates
+        self.fate = None
+        self.calls = []
+        self.status = None
+        self.code = None
+        self.error = None
+
+    def run(self, args, kwargs):
+        w = self.world
+        v = w.v
+        self.calls.append((args, kwargs))
+        w.order.append(self.name)
+        ws = w.see(args, kwargs)
+        fate = self.fates[v.choose(len(self.fates), self.name + '-does')]
+        self.fate = fate
+        if ws is not None and (fate != P_RETURNS or self.last):
+            w.havoc()
+        if fate == P_RETURNS:
+            return Ready(None)
+        if fate in (P_HTTP_ERROR, P_HTTP_STATUS):
+            cls = v.real('falcon:HTTPError' if fate == P_HTTP_ERROR else 'falcon:HTTPStatus')
+            s = v.int(self.name + '_status', 100, 599)
+            self.status = s
+            if v.concrete:
+                raise cls(s)
+            ev = ExcVal(cls, (s,))
+            ev.fields['status'] = s
+            ev.fields['status_code'] = s  # HTTPError.status_code / HTTPStatus.status_code: the integer code of .status (C05)
+            self.error = ev
+            raise PyRaise(ev)
+        if fate == P_DISCONNECTED:
+            cls = v.real(WSD)
+            c = v.int(self.name + '_disconnect_code', 1000, 4999)
+            self.code = c
+            if v.concrete:
+                raise cls(c)
+            ev = ExcVal(cls, (c,))
+            ev.fields['code'] = c
+            self.error = ev
+            raise PyRaise(ev)
+        err = RuntimeError('application bug') if fate == P_EXCEPTION else Boom('boom')
+        self.error = err
+        _raise(v, err)
+
+    def __call__(self, *args, **kwargs):
+        return self.run(args, kwargs)
+
+
+@stubclass
+class ErrorHandler(Participant):
+    def __call__(self, req, resp, ex, params, ws=None):
+        return self.run((req, resp, ex, params), {'ws': ws})
+
+
+def _setup_app(reg, ex):
+    import falcon.util.misc as misc
+    from pyvc.interp import BoundMethod, Closure
+
+    _setup_init(reg, ex)
+
+    def get_argnames(I, func):
+        # inspect.signature: positional-or-keyword / keyword-only names, without a leading self
+        f = func.func if isinstance(func, BoundMethod) else func
+        if isinstance(f, Closure):
+            a = f.node.args
+            names = [x.arg for x in a.posonlyargs + a.args + a.kwonlyargs]
+            if isinstance(func, BoundMethod) and names:
+                names = names[1:]
+            if names and names[0] == 'self':
+                names = names[1:]
+            return names
+        return misc.get_argnames(func)
+
+    reg.stubs['falcon.util.misc:get_argnames'] = get_argnames
+
+
+APP_INLINE = INLINE + [
+    M + ':_BufferedReceiver.__init__',
+    M + ':_BufferedReceiver.stop',
+    M + ':_BufferedReceiver.start',
+    M + ':http_status_to_ws_code',
+    APP + '._handle_exception',
+    APP + '._http_status_handler',
+    APP + '._http_error_handler',
+    APP + '._python_error_handler',
+    APP + '._ws_disconnected_error_handler',
+    APP + '._ws_cleanup_on_error',
+    'falcon.app:App._get_responder',
+    'falcon.app:App._find_error_handler',
+    'falcon.responders:*',
+    'falcon.routing.util:set_default_responders',
+]
+
+UNROUTED, NO_RESPONDER, ROUTED = 0, 1, 2
+DEFAULT_HANDLERS = ('_python_error_handler', '_http_error_handler', '_http_status_handler', '_ws_disconnected_error_handler')
+
+
+@stubclass
+class WsOptions:
+    def __init__(self, v, maxq):
+        PT = v.real('falcon.constants:WebSocketPayloadType')
+        self.error_close_code = v.int('error_close_code')
+        self.max_receive_queue = maxq
+        self.media_handlers = {PT.TEXT: MediaHandler(v, 'text'), PT.BINARY: MediaHandler(v, 'bin')}
+        self.default_close_reasons = Reasons(v)
+
+
+def build_app(v, w, route_kind, with_mw, custom):
+    """The App object around _handle_websocket (real App in concrete mode)."""
+    resource = _Opaque('resource')
+    w.responder = Participant(w, 'responder', True, (P_RETURNS, P_HTTP_ERROR, P_HTTP_STATUS, P_DISCONNECTED, P_EXCEPTION) + ((P_BOOM,) if custom else ()))
+    mw_fates = (P_RETURNS, P_HTTP_ERROR, P_EXCEPTION)
+    w.request_mw = Participant(w, 'process_request_ws', route_kind == UNROUTED, mw_fates) if with_mw else None
+    w.resource_mw = Participant(w, 'process_resource_ws', route_kind == NO_RESPONDER, mw_fates) if with_mw else None
+    w.handler = ErrorHandler(w, 'custom_handler', True, (P_RETURNS, P_HTTP_ERROR, P_HTTP_STATUS, P_EXCEPTION)) if custom else None
+    if route_kind == UNROUTED:
+        route = None
+    else:
+        method_map = {'GET': _Opaque('on_get')}
+        if route_kind == ROUTED:
+            method_map['WEBSOCKET'] = w.responder
+        # the router stores method maps completed by set_default_responders (falcon/routing/compiled.py add_route)
+        r = v.call(method_map, asgi=True, target='falcon.routing.util:set_default_responders')
+        v.check('default-responders-installed', r.exc is None and 'WEBSOCKET' in method_map)
+        w.params = {'room': v.str('room')}
+        route = (resource, method_map, w.params, '/rooms/{room}')
+    w.router = Router(w, route)
+    w.factory = ReqFactory(w)
+    w.options = WsOptions(v, w.maxq)
+    w.req_options = _Opaque('req_options')
+    mw = ((w.request_mw,), (w.resource_mw,)) if with_mw else ((), ())
+    if v.concrete:
+        import falcon.asgi
+
+        app = falcon.asgi.App()
+        app._request_type = w.factory
+        app.req_options = w.req_options
+        app.ws_options = w.options
+        app._middleware_ws = mw
+        app._router_search = w.router
+        app._sink_and_static_routes = ()
+        if custom:
+            app._error_handlers[Boom] = w.handler
+        return app
+    app = v.obj(APP, _request_type=w.factory, req_options=w.req_options, ws_options=w.options, _middleware_ws=mw, _router_search=w.router,
+                _sink_and_static_routes=())
+    I = v.interp
+    HTTPError, HTTPStatus, WSDisc = v.real('falcon:HTTPError'), v.real('falcon:HTTPStatus'), v.real(WSD)
+    handlers = {
+        Exception: I.getattr(app, '_python_error_handler'),
+        HTTPError: I.getattr(app, '_http_error_handler'),
+        HTTPStatus: I.getattr(app, '_http_status_handler'),
+        WSDisc: I.getattr(app, '_ws_disconnected_error_handler'),
+    }
+    if custom:
+        handlers[Boom] = w.handler
+    v.set(app, '_error_handlers', handlers)
+    return app
+
+
+def is_close(ev, code):
+    """A 'websocket.close' event with exactly this code (and at most a reason besides)."""
+    if not isinstance(ev, dict) or not set(ev.keys()) <= {'type', 'code', 'reason'} or 'code' not in ev:
+        return False
+    return And(ev.get('type') == 'websocket.close', ev['code'] == code)
+
+
+def handle_websocket(v):
+    ver = v.one_of('spec-version', '2.0', '2.4')
+    maxq = v.one_of('max_receive_queue', 0, 4)
+    route_kind = v.choose(3, 'route')
+    with_mw = v.choose(2, 'middleware?')
+    custom = v.choose(2, 'custom-error-handler?')
+    w = World(v, maxq)
+    s = w.sess
+    app = build_app(v, w, route_kind, with_mw, custom)
+    recv = AppReceive(v, s, {'type': 'websocket.connect'})
+    scope = {'type': 'websocket', 'path': '/rooms/1', 'subprotocols': ['chat']}
+    ecc = w.options.error_close_code
+
+    out = v.call(app, ver, scope, recv, w.send)
+
+    v.check('request-built-once-from-scope-and-receive', len(w.factory.calls) == 1 and w.factory.calls[0][0] is scope and w.factory.calls[0][1] is recv
+            and w.factory.calls[0][2] is w.req_options)
+    # --- who ran, in which order, and what the last one did -------------------------------------
+    ran = list(w.order)
+    last = {'process_request_ws': w.request_mw, 'process_resource_ws': w.resource_mw, 'responder': w.responder, 'custom_handler': w.handler}.get(ran[-1]) if ran else None
+    raiser = None
+    for p in (w.request_mw, w.resource_mw, w.responder):
+        if p is not None and p.calls and p.fate != P_RETURNS:
+            raiser = p
+    expected_order = []
+    if with_mw:
+        expected_order.append('process_request_ws')
+    if not (with_mw and w.request_mw.fate != P_RETURNS):
+        if route_kind != UNROUTED and with_mw:
+            expected_order.append('process_resource_ws')
+        if route_kind == ROUTED and not (with_mw and w.resource_mw.fate != P_RETURNS):
+            expected_order.append('responder')
+    if raiser is not None and raiser.fate == P_BOOM:
+        expected_order.append('custom_handler')
+    v.check('middleware-then-responder-in-order', ran == expected_order)
+    if w.responder.calls:
+        a, k = w.responder.calls[0]
+        v.check('responder-gets-request-socket-and-route-params', len(a) == 2 and a[0] is w.req and a[1] is w.ws and set(k) == {'room'} and k['room'] is w.params['room'])
+
+    # --- which close the statement demands ----------------------------------------------------------
+    # cause: what ended the conversation
+    if raiser is None:
+        if route_kind == UNROUTED:
+            cause, want = 'unrouted', 3404
+        elif route_kind == NO_RESPONDER:
+            cause, want = 'no-responder', 3405
+        else:
+            cause, want = 'returned', 1000
+    elif raiser.fate in (P_HTTP_ERROR, P_HTTP_STATUS):
+        cause, want = 'http', 3000 + raiser.status
+    elif raiser.fate in (P_DISCONNECTED, P_EXCEPTION):
+        cause, want = 'error', None
+    else:
+        h = w.handler
+        if h.fate == P_RETURNS:
+            cause, want = 'handled', None
+        elif h.fate in (P_HTTP_ERROR, P_HTTP_STATUS):
+            cause, want = 'http', 3000 + h.status
+        else:
+            cause, want = 'handler-failed', None
+    v.cover('cause:' + cause) if cause in ('unrouted', 'no-responder', 'returned', 'http', 'error') else None
+
+    if w.final is None:
+        # no participant touched the socket: it is as constructed
+        state, mon, gone, disc = w.St.HANDSHAKE, CONNECTING, False, False
+    else:
+        state, mon, gone, disc, _code = w.final
+    open_ = state is not w.St.CLOSED and not disc  # the application did not close and the client is still there
+    n_sent = len(s.sent)
+
+    if cause in ('handled', 'handler-failed'):
+        # a custom error handler took the exception; the statement still demands a close when nobody closed
+        if cause == 'handled':
+            v.check('handled-exception-returns-normally', out.exc is None)
+        else:
+            v.check('error-from-custom-handler-propagates', is_exc(out, w.handler.error))
+        if open_:
+            v.check('close-sent-when-a-custom-handler-leaves-the-socket-open', And(s.mon == CLOSED, s.attempts >= 1))
+        else:
+            v.check('nothing-sent-on-a-closed-or-lost-connection', s.attempts == 0)
+        return
+
+    if not open_:
+        v.check('nothing-sent-on-a-closed-or-lost-connection', s.attempts == 0)
+        v.check('returns-normally-when-already-closed', out.exc is None)
+        v.cover('ends-already-closed')
+        return
+
+    # the socket is open (CONNECTING or OPEN by the invariant) and the client is connected: a close is due
+    if cause == 'error':
+        want = Ite(valid_close_code(ecc), ecc, 3011)
+    v.check('a-close-is-attempted', s.attempts >= 1)
+    if not w.send.seen or w.send.seen[0] != 0:
+        # the server refused the framework's close event: nothing more is demanded here; whatever the
+        # framework tries next is judged by the session monitor (session-legal:* clauses)
+        v.check('refused-close-not-counted', Implies(len(w.send.seen) == 1, n_sent == 0))
+        v.cover('final-close-refused')
+        return
+    v.check('exactly-one-event-sent', And(s.attempts == 1, n_sent == 1))
+    ev = s.sent[0] if s.sent else None
+    if cause == 'unrouted':
+        v.check('unrouted-path-closes-with-3404', is_close(ev, 3404))
+    elif cause == 'no-responder':
+        v.check('missing-responder-closes-with-3405', is_close(ev, 3405))
+    elif cause == 'returned':
+        v.check('normal-return-closes-with-1000', is_close(ev, 1000))
+    elif cause == 'http':
+        v.check('http-error-or-status-closes-with-3000-plus-status', is_close(ev, want))
+    else:
+        v.check('unexpected-error-closes-with-error_close_code-or-3011-when-that-is-invalid', is_close(ev, want))
+    v.check('exception-handled-returns-normally', out.exc is None)
+    v.check('session-closed', And(s.mon == CLOSED, v.get(w.ws, '_state') is w.St.CLOSED) if w.ws is not None else s.mon == CLOSED)
+    v.cover('closed-by-framework')
+
+
+for _r, _rn in ((UNROUTED, 'unrouted'), (NO_RESPONDER, 'no-responder'), (ROUTED, 'routed')):
+    for _mw in (0, 1):
+        for _c in (0, 1):
+            if _c and _r != ROUTED:
+                continue  # the custom handler is reached from the responder only
+            for _ver, _q in ((0, 0), (0, 1), (1, 0), (1, 1)):
+                harness(PROP, APP + '._handle_websocket', name='handle_websocket[%s,mw=%d,custom=%d,spec=%s,queue=%d]' % (_rn, _mw, _c, ('2.0', '2.4')[_ver], (0, 4)[_q]),
+                        inline=APP_INLINE, setup=_setup_app,
+                        fix={'route': _r, 'middleware?': _mw, 'custom-error-handler?': _c, 'spec-version': _ver, 'max_receive_queue': _q})(handle_websocket)
+
+
+@harness(PROP, APP + '._handle_websocket', name='handshake_abandoned', inline=APP_INLINE, setup=_setup_app)
+def handshake_abandoned(v):
+    """A first event other than websocket.connect: one close 1011 and return; no request, no socket, no routing."""
+    ver = v.one_of('spec-version', '2.0', '2.1', '2.2', '2.3', '2.4')
+    w = World(v, 0)
+    s = w.sess
+    app = build_app(v, w, ROUTED, 1, 0)
+    fk = v.choose(3, 'first-event')
+    first = [{'type': 'websocket.disconnect', 'code': 1001}, {'type': 'websocket.receive', 'text': 'early'}, {'type': 'http.request'}][fk]
+    recv = AppReceive(v, s, first)
+    out = v.call(app, ver, {'type': 'websocket', 'path': '/rooms/1'}, recv, w.send)
+    v.check('exactly-one-send-attempt', s.attempts == 1)
+    v.check('nothing-else-runs', len(w.factory.calls) == 0 and len(w.router.calls) == 0 and w.order == [] and recv.calls == 1)
+    if w.send.fate == 0:
+        v.check('returns-normally', out.exc is None and out.value is None)
+        if _ver_tuple(ver) >= (2, 3):
+            v.check('one-close-1011-with-reason', len(s.sent) == 1 and event_is(s.sent[0], type='websocket.close', code=1011, reason='Internal Server Error'))
+            v.cover('with-reason')
+        else:
+            v.check('one-close-1011-without-reason', len(s.sent) == 1 and event_is(s.sent[0], type='websocket.close', code=1011))
+            v.cover('without-reason')
+        v.check('session-closed', s.mon == CLOSED)
+    else:
+        v.check('server-error-propagates', is_exc(out, s.lost_error))
 
 
 ASSUMPTIONS = []
